@@ -443,5 +443,58 @@ def r09_5(ctx):
      if bad else ctx.ok(construct, g.loc(calls[0]) if calls else g.loc(), nontrivial=False))
 
 
+def r09_6(ctx):
+    """R09.6 (a) code that handles `Symbol | Choice` values (the items of a reported loop, annotated union parameters) reads
+    only attributes both classes have unless a type test guards the access - `Choice` has no `choice` slot, so reporting a
+    loop through a choice would die with AttributeError instead of the Kconfig error; (b) the loop check starts from clean
+    marks: nothing that runs before it in Kconfig.__call__ leaves `_visited` set (the DFS shares that slot with the
+    unique-symbol tree walks); (c) reverse dependencies are built as (source AND condition) - the shape the sanity checks
+    and `_warn_select_unsatisfied_deps` take apart with split_expr(..)[0] (C01 R01.6)."""
+    from . import c01
+    from ..callgraph import CallGraph
+    from .common import delegate, union_attr_lint
+    repo = ctx.repo
+    sites = [(f"{CORE}:_found_dep_loop", "item")]
+    for f in repo.funcs_in(CORE):
+        for a in f.node.args.args:
+            if a.annotation is not None and "Symbol" in ast.unparse(a.annotation) and "Choice" in ast.unparse(a.annotation) and "Union" in ast.unparse(a.annotation) \
+                    and "Tuple" not in ast.unparse(a.annotation) and "Set" not in ast.unparse(a.annotation) and "List" not in ast.unparse(a.annotation):
+                sites.append((f.qual, a.arg))
+    union_attr_lint(ctx, sites)
+    # (b)
+    f = repo.func(f"{CORE}:Kconfig.__call__")
+    cg = CallGraph(repo)
+    lp = [n for n in f.node.body if isinstance(n, ast.For) and any(isinstance(x, ast.Call) and "check_dep_loop_sym" in ast.unparse(x.func) for x in ast.walk(n))]
+    if not lp:
+        raise AnchorError("loop check not found at the top level of Kconfig.__call__")
+    before = f.node.body[:f.node.body.index(lp[0])]
+    roots: Set[str] = set()
+    for st in before:
+        for c in ast.walk(st):
+            if isinstance(c, ast.Call):
+                for q, strong in cg.callee_of(f, c):
+                    roots.add(q)
+    reach = cg.reachable(roots, weak=False)
+    construct = "Kconfig.__call__/nothing before the loop check leaves _visited marks behind"
+    offenders = []
+    for q in sorted(reach):
+        g = repo.funcs[q]
+        if g.short.startswith(("_check_dep_loop", "Symbol.__init__", "Choice.__init__", "Symbol.init_rest", "Choice.init_rest")):
+            continue
+        for n in ast.walk(g.node):
+            if isinstance(n, ast.Assign) and isinstance(n.targets[0], ast.Attribute) and n.targets[0].attr == "_visited" \
+                    and not (isinstance(n.value, ast.Name) and n.value.id == "UNKNOWN") and not (isinstance(n.value, ast.Constant) and n.value.value in (0, False)) \
+                    and g.short != "Kconfig.node_iter":
+                offenders.append(f"{g.short} sets _visited")
+            if isinstance(n, ast.Call) and ast.unparse(n.func).endswith(".node_iter"):
+                arg = n.args[0] if n.args else next((k.value for k in n.keywords if k.arg == "unique_syms"), None)
+                if arg is not None and not (isinstance(arg, ast.Constant) and not arg.value):
+                    offenders.append(f"{g.short} calls node_iter(unique_syms={ast.unparse(arg)})")
+    (ctx.bad(construct, "; ".join(offenders[:3]) + ": every defined symbol then looks `in progress` to the DFS, whose top-level result is not "
+             "inspected - no loop is ever reported and evaluation recurses without bound", f.loc(lp[0]))
+     if offenders else ctx.ok(construct, f.loc(lp[0]), functions_examined=len(reach)))
+    delegate(ctx, c01.r01_6, lambda c: True)
+
+
 def rules():
-    return [("R09.1", r09_1, 14), ("R09.1b", r09_1b, 3), ("R09.2", r09_2, 6), ("R09.3", r09_3, 8), ("R09.4", r09_4, 5), ("R09.5", r09_5, 10)]
+    return [("R09.6", r09_6, 6), ("R09.1", r09_1, 14), ("R09.1b", r09_1b, 3), ("R09.2", r09_2, 6), ("R09.3", r09_3, 8), ("R09.4", r09_4, 5), ("R09.5", r09_5, 10)]
